@@ -1,5 +1,4 @@
-\* quick tier: 1-D lattice {0..3}, every sequence of 1..5 points, EVERY order in which a
-\* radius query may return its rows; terminal states are printed for the spec -> impl replay
+\* thorough: 1-D {0..3}, all sequences of 1..5 points, every query order (1.16 M states); printed for replay
 CONSTANTS W = 4  H = 0  MaxN = 5  EpsSet = {1, 2}  MinPtsSet = {1, 2, 3}
           Key = "man"  Order = "any"  Emit = TRUE
 SPECIFICATION Spec
